@@ -296,12 +296,16 @@ func childMain() {
 	hn, _ := strconv.Atoi(os.Getenv("C18_HIST"))
 	boundary := os.Getenv("C18_KIND") == "boundary"
 	bulk := os.Getenv("C18_KIND") == "bulk"
+	huge := os.Getenv("C18_KIND") == "huge"
 	label := fmt.Sprintf("history/%s/%d", cfg, hn)
 	if boundary {
 		label = fmt.Sprintf("boundary/%s", cfg)
 	}
 	if bulk {
 		label = fmt.Sprintf("bulk/%s", cfg)
+	}
+	if huge {
+		label = fmt.Sprintf("huge/%s", cfg)
 	}
 	nreq, _ := strconv.Atoi(os.Getenv("C18_NREQ"))
 	dir := os.Getenv("C18_DIR")
@@ -351,8 +355,12 @@ func childMain() {
 	} else if bulk {
 		h.runBulk()
 		h.auditBulk()
+	} else if huge {
+		h.runHuge()
+		h.auditHuge()
 	} else {
 		h.run(nreq)
+		h.runRepeatFiles(hn)
 		h.audit()
 	}
 	h.observeDisk()
